@@ -782,12 +782,85 @@ fn snapshot<S: UnwindContextStorage<usize>>(row: &UnwindTableRow<usize, S>, sec:
     }
 }
 
-fn rows_with<'a, Sec, St>(section: &Sec, bases: &BaseAddresses, fde: &FrameDescriptionEntry<Rd<'a>>, sec: &[u8], cap: usize) -> (Vec<RowOut>, Result<(), gimli::Error>)
+/// the "dirtying" programs run on a context before it is reused (all `.debug_frame`, little endian,
+/// 8-byte addresses, caf 1, daf -8; FDE range [0x1000, 0x1080)): (CIE instructions, FDE instructions)
+const DIRTY_POOL: &[(&[u8], &[u8])] = &[
+    // 0: GNU_args_size in the bottom row (no initial rule: the FDE is evaluated in stack[0])
+    (&[], &[0x2e, 0x10, 0x41, 0x0e, 0x20]),
+    // 1: one initial rule, args_size in CIE and FDE, a CFA expression left behind
+    (&[0x2e, 0x05, 0x81, 0x01], &[0x41, 0x2e, 0x07, 0x0f, 0x01, 0x50, 0x42]),
+    // 2: two initial rules (saved row at stack[0]) with args_size in the CIE
+    (&[0x81, 0x01, 0x82, 0x02, 0x2e, 0x09], &[0x41, 0x07, 0x03, 0x2e, 0x0b]),
+    // 3: remember_state after args_size, left unbalanced (the value is parked in stack[0])
+    (&[], &[0x2e, 0x0d, 0x0a, 0x0a, 0x41, 0x2e, 0x01, 0x0c, 0x09, 0x63]),
+    // 4: fails in the middle of the CIE (restore is invalid there) after args_size and a rule
+    (&[0x2e, 0x03, 0x07, 0x05, 0xc1], &[0x41]),
+    // 5: fails in the middle of the FDE (def_cfa_offset on an expression CFA) after a row
+    (&[0x81, 0x01], &[0x2e, 0x11, 0x41, 0x0f, 0x01, 0x50, 0x0e, 0x08]),
+    // 6: StackFull (six remember_state) with args_size and rules on every row
+    (&[0x82, 0x03], &[0x2e, 0x13, 0x81, 0x04, 0x0a, 0x0a, 0x0a, 0x0a, 0x0a, 0x0a, 0x41]),
+    // 7: many register rules (TooManyRegisterRules on the small storages), args_size, odd CFA
+    (
+        &[0x81, 0x01, 0x82, 0x01, 0x83, 0x01, 0x84, 0x01, 0x85, 0x01, 0x86, 0x01, 0x87, 0x01, 0x88, 0x01, 0x89, 0x01, 0x8a, 0x01],
+        &[0x2e, 0x17, 0x0c, 0x09, 0x63, 0x8b, 0x01, 0x8c, 0x01, 0x8d, 0x01, 0x8e, 0x01, 0x8f, 0x01, 0x90, 0x01, 0x91, 0x01, 0x92, 0x01, 0x41, 0x2d],
+    ),
+];
+
+/// run dirtying program `which` on `ctx`: all its rows through `next_row`, or (odd `via`) a single
+/// `unwind_info_for_address` that stops at the first row
+fn dirty_ctx<St: UnwindContextStorage<usize>>(ctx: &mut UnwindContext<usize, St>, which: usize, via: u64) {
+    let (cie, fde) = DIRTY_POOL[which % DIRTY_POOL.len()];
+    let q = Req {
+        eh: false,
+        big: false,
+        asz: 8,
+        enc: 0,
+        aarch64: true,
+        bases: [None, None, None],
+        caf: 1,
+        daf: -8,
+        cie: cie.to_vec(),
+        addrs: vec![0, 0x10, 0, 0, 0, 0, 0, 0, 0x80, 0, 0, 0, 0, 0, 0, 0],
+        fde: fde.to_vec(),
+    };
+    let (sec, fde_off) = q.build();
+    let mut s = DebugFrame::new(&sec, RunTimeEndian::Little);
+    s.set_vendor(Vendor::AArch64);
+    let bases = BaseAddresses::default();
+    let Ok(f) = s.fde_from_offset(&bases, gimli::DebugFrameOffset(fde_off), DebugFrame::cie_from_offset) else { return };
+    if via % 2 == 1 {
+        let _ = f.unwind_info_for_address(&s, &bases, ctx, 0x1000 + (via >> 1) % 4);
+        return;
+    }
+    if let Ok(mut t) = f.rows(&s, &bases, ctx) {
+        for _ in 0..64 {
+            match t.next_row() {
+                Ok(Some(_)) => {}
+                _ => break,
+            }
+        }
+    }
+}
+
+/// a context for the next evaluation: fresh (`dirty = None`) or used immediately before for one
+/// or two dirtying programs chosen by the seed
+fn make_ctx<St: UnwindContextStorage<usize>>(dirty: Option<u64>) -> Box<UnwindContext<usize, St>> {
+    let mut ctx: Box<UnwindContext<usize, St>> = Box::new(UnwindContext::new_in());
+    if let Some(seed) = dirty {
+        dirty_ctx(&mut ctx, (seed % 8) as usize, seed >> 3);
+        if (seed >> 6) % 2 == 1 {
+            dirty_ctx(&mut ctx, ((seed >> 7) % 8) as usize, seed >> 10);
+        }
+    }
+    ctx
+}
+
+fn rows_with<'a, Sec, St>(section: &Sec, bases: &BaseAddresses, fde: &FrameDescriptionEntry<Rd<'a>>, sec: &[u8], cap: usize, dirty: Option<u64>) -> (Vec<RowOut>, Result<(), gimli::Error>)
 where
     Sec: UnwindSection<Rd<'a>>,
     St: UnwindContextStorage<usize>,
 {
-    let mut ctx: Box<UnwindContext<usize, St>> = Box::new(UnwindContext::new_in());
+    let mut ctx: Box<UnwindContext<usize, St>> = make_ctx(dirty);
     let mut rows = vec![];
     let mut table = match fde.rows(section, bases, &mut ctx) {
         Ok(t) => t,
@@ -824,7 +897,7 @@ where
 
 /// `FrameDescriptionEntry::unwind_info_for_address` must return the first row of the table that
 /// contains the address (or the error the table runs into before, or `NoUnwindInfoForAddress`)
-fn lookup_with<'a, Sec, St>(section: &Sec, bases: &BaseAddresses, fde: &FrameDescriptionEntry<Rd<'a>>, sec: &[u8], rows: &[RowOut], res: &Result<(), gimli::Error>) -> Option<String>
+fn lookup_with<'a, Sec, St>(section: &Sec, bases: &BaseAddresses, fde: &FrameDescriptionEntry<Rd<'a>>, sec: &[u8], rows: &[RowOut], res: &Result<(), gimli::Error>, seed: u64) -> Option<String>
 where
     Sec: UnwindSection<Rd<'a>>,
     St: UnwindContextStorage<usize>,
@@ -838,8 +911,9 @@ where
         probes.push(r.start);
         probes.push(r.end);
     }
-    for a in probes {
-        let mut ctx: Box<UnwindContext<usize, St>> = Box::new(UnwindContext::new_in());
+    for (k, a) in probes.into_iter().enumerate() {
+        // every other probe on a context that was just used for something else
+        let mut ctx: Box<UnwindContext<usize, St>> = make_ctx(if k % 2 == 1 { Some(seed.rotate_left(k as u32 * 7)) } else { None });
         let got = fde.unwind_info_for_address(section, bases, &mut ctx, a).map(|r| snapshot(r, sec).text);
         let want: Result<String, String> = match rows.iter().find(|r| r.start <= a && a < r.end) {
             Some(r) => Ok(r.text.clone()),
@@ -856,23 +930,23 @@ where
     None
 }
 
-fn rows_storage<'a, Sec>(storage: &str, section: &Sec, bases: &BaseAddresses, fde: &FrameDescriptionEntry<Rd<'a>>, sec: &[u8], cap: usize) -> Option<(Vec<RowOut>, Result<(), gimli::Error>)>
+fn rows_storage<'a, Sec>(storage: &str, section: &Sec, bases: &BaseAddresses, fde: &FrameDescriptionEntry<Rd<'a>>, sec: &[u8], cap: usize, dirty: Option<u64>) -> Option<(Vec<RowOut>, Result<(), gimli::Error>)>
 where
     Sec: UnwindSection<Rd<'a>>,
 {
     Some(match storage {
-        "heap" => rows_with::<Sec, StoreOnHeap>(section, bases, fde, sec, cap),
-        "vec" => rows_with::<Sec, StVec>(section, bases, fde, sec, cap),
-        "a4x192" => rows_with::<Sec, St<4, 192>>(section, bases, fde, sec, cap),
-        "a5x193" => rows_with::<Sec, StBox<5, 193>>(section, bases, fde, sec, cap),
-        "a1x1" => rows_with::<Sec, St<1, 1>>(section, bases, fde, sec, cap),
-        "a2x2" => rows_with::<Sec, St<2, 2>>(section, bases, fde, sec, cap),
-        "a2x1" => rows_with::<Sec, St<2, 1>>(section, bases, fde, sec, cap),
-        "a3x1" => rows_with::<Sec, StBox<3, 1>>(section, bases, fde, sec, cap),
-        "a3x3" => rows_with::<Sec, St<3, 3>>(section, bases, fde, sec, cap),
-        "a8x8" => rows_with::<Sec, St<8, 8>>(section, bases, fde, sec, cap),
-        "a1x0" => rows_with::<Sec, St<1, 0>>(section, bases, fde, sec, cap),
-        "a0x4" => rows_with::<Sec, St<0, 4>>(section, bases, fde, sec, cap),
+        "heap" => rows_with::<Sec, StoreOnHeap>(section, bases, fde, sec, cap, dirty),
+        "vec" => rows_with::<Sec, StVec>(section, bases, fde, sec, cap, dirty),
+        "a4x192" => rows_with::<Sec, St<4, 192>>(section, bases, fde, sec, cap, dirty),
+        "a5x193" => rows_with::<Sec, StBox<5, 193>>(section, bases, fde, sec, cap, dirty),
+        "a1x1" => rows_with::<Sec, St<1, 1>>(section, bases, fde, sec, cap, dirty),
+        "a2x2" => rows_with::<Sec, St<2, 2>>(section, bases, fde, sec, cap, dirty),
+        "a2x1" => rows_with::<Sec, St<2, 1>>(section, bases, fde, sec, cap, dirty),
+        "a3x1" => rows_with::<Sec, StBox<3, 1>>(section, bases, fde, sec, cap, dirty),
+        "a3x3" => rows_with::<Sec, St<3, 3>>(section, bases, fde, sec, cap, dirty),
+        "a8x8" => rows_with::<Sec, St<8, 8>>(section, bases, fde, sec, cap, dirty),
+        "a1x0" => rows_with::<Sec, St<1, 0>>(section, bases, fde, sec, cap, dirty),
+        "a0x4" => rows_with::<Sec, St<0, 4>>(section, bases, fde, sec, cap, dirty),
         _ => return None,
     })
 }
@@ -888,15 +962,42 @@ where
         Err(e) => return Some((format!("err {} -", rerr(&e)), None)),
     };
     let cap = q.cie.len() + q.fde.len() + 4;
-    let (rows, res) = rows_storage(storage, section, &bases, &fde, secbytes, cap)?;
+    let (rows, res) = rows_storage(storage, section, &bases, &fde, secbytes, cap, None)?;
     let texts: Vec<String> = rows.iter().map(|r| r.text.clone()).collect();
+    // the case's seed: a hash of its instruction bytes and configuration
+    let seed = q.cie.iter().chain(q.fde.iter()).chain(q.addrs.iter()).fold(DIGEST_INIT ^ q.caf ^ (q.daf as u64).rotate_left(17), |h, b| digest_step(h, *b as u64));
+    // the same FDE on a context that was used immediately before for one or two other programs
+    // (C20 proves `unwind_reused_eq_fresh` for the Model): rows and outcome must not change
+    let reuse_problem = if caps(storage)?.0 != Some(0) && !matches!(res, Err(gimli::Error::TooManyIterations)) {
+        let (rows2, res2) = rows_storage(storage, section, &bases, &fde, secbytes, cap, Some(seed))?;
+        let texts2: Vec<String> = rows2.iter().map(|r| r.text.clone()).collect();
+        let out = |r: &Result<(), gimli::Error>| match r {
+            Ok(()) => "ok".to_string(),
+            Err(e) => rerr(e),
+        };
+        if texts2 != texts || out(&res2) != out(&res) {
+            Some(format!(
+                "reused-context-differs after dirtying {}{}: fresh {} {} reused {} {}",
+                seed % 8,
+                if (seed >> 6) % 2 == 1 { format!("+{}", (seed >> 7) % 8) } else { String::new() },
+                out(&res),
+                list_s(&texts, "|"),
+                out(&res2),
+                list_s(&texts2, "|")
+            ))
+        } else {
+            rows2.iter().find_map(|r| r.iter_problem.clone()).map(|p| format!("row-api (reused context) {p}"))
+        }
+    } else {
+        None
+    };
     // (no lookups when the table itself did not terminate: gimli's lookup loop would not either)
     let lookup_problem = if do_lookup && !matches!(res, Err(gimli::Error::TooManyIterations)) {
         match storage {
-            "heap" => lookup_with::<Sec, StoreOnHeap>(section, &bases, &fde, secbytes, &rows, &res),
-            "vec" => lookup_with::<Sec, StVec>(section, &bases, &fde, secbytes, &rows, &res),
-            "a8x8" => lookup_with::<Sec, St<8, 8>>(section, &bases, &fde, secbytes, &rows, &res),
-            "a2x2" => lookup_with::<Sec, St<2, 2>>(section, &bases, &fde, secbytes, &rows, &res),
+            "heap" => lookup_with::<Sec, StoreOnHeap>(section, &bases, &fde, secbytes, &rows, &res, seed),
+            "vec" => lookup_with::<Sec, StVec>(section, &bases, &fde, secbytes, &rows, &res, seed),
+            "a8x8" => lookup_with::<Sec, St<8, 8>>(section, &bases, &fde, secbytes, &rows, &res, seed),
+            "a2x2" => lookup_with::<Sec, St<2, 2>>(section, &bases, &fde, secbytes, &rows, &res, seed),
             _ => None,
         }
     } else {
@@ -910,6 +1011,9 @@ where
     let mut verdict: Option<String> = None;
     if let Some(p) = rows.iter().find_map(|r| r.iter_problem.clone()) {
         verdict = Some(format!("row-api {p}"));
+    }
+    if verdict.is_none() {
+        verdict = reuse_problem;
     }
     if verdict.is_none() {
         verdict = lookup_problem;
@@ -966,8 +1070,8 @@ where
 }
 
 fn unwind_req(q: &Req, storage: &str) -> Option<(String, Option<String>)> {
-    // the address lookups re-run the table once per probe: do them on a third of the requests
-    unwind_req_opt(q, storage, (q.cie.len() + q.fde.len()) % 3 == 0)
+    // the address lookups re-run the table once per probe: do them on a quarter of the requests
+    unwind_req_opt(q, storage, (q.cie.len() + q.fde.len()) % 4 == 0)
 }
 
 fn unwind_req_opt(q: &Req, storage: &str, do_lookup: bool) -> Option<(String, Option<String>)> {
@@ -2191,7 +2295,7 @@ pub fn gen(ctx: &Ctx, emit: &mut dyn FnMut(String)) {
 
     // ---- C0. structured-valid programs: every opcode, tracked state, moderate operands
     let mut rng = ctx.rng(0x0604);
-    for _ in 0..ctx.n(60_000, 600_000) {
+    for _ in 0..ctx.n(45_000, 600_000) {
         let big = rng.chance(1, 3);
         let eh = rng.chance(2, 5);
         let asz: u8 = if eh { 1 + rng.below(8) as u8 } else { *rng.pick(&[1u8, 2, 4, 8, 8, 4]) };
@@ -2252,7 +2356,7 @@ pub fn gen(ctx: &Ctx, emit: &mut dyn FnMut(String)) {
 
     // ---- C. random programs over every opcode, boundary operands, every configuration
     let mut rng = ctx.rng(0x0602);
-    for case in 0..ctx.n(30_000, 400_000) {
+    for case in 0..ctx.n(24_000, 400_000) {
         let s = g_shape(&mut rng);
         let small = rng.chance(2, 3);
         let vendor = if rng.chance(2, 3) { "aarch64" } else { "default" };
